@@ -11,9 +11,9 @@ DRIVER = "driver executes the real snow API built from /repo's working tree (fea
 
 CHECKS = {
     "C01": ("exploration", "runtime monitoring: lock-step reference-model oracle (byte-exact) over honest sessions, model-as-peer interop, third-party vectors", "6/C01",
-            "every produced handshake/transport message, handshake hash and payload-encrypted flag of each explored session compared byte-for-byte with an independent spec model that consumes the logged RNG draws; thorough enumerates all 13 344 names", MODEL),
+            "every produced handshake/transport message, handshake hash and payload-encrypted flag of each explored session compared byte-for-byte with an independent spec model that consumes the logged RNG draws (honest sessions over all 13 344 names with rekeys and late PSKs, sessions with injected failing calls and retries, the model playing the peer, 472 third-party vectors)", MODEL),
     "C02": ("exploration", "runtime monitoring: agreement oracle over recorded honest histories (completion count, payload and hash equality)", "6/C02",
-            "each explored honest session (library-generated keys, OS randomness) finished after exactly the pattern's message count with all payloads delivered intact and equal hashes", "message counts from the independent pattern table; " + DRIVER),
+            "each explored honest session (every name; library-generated keys, OS randomness, PSKs from the builder or set late, payload buffers of every legal size; hfs+Kyber names in thorough) finished after exactly the pattern's message count with all payloads delivered intact and equal hashes", "message counts from the independent pattern table; " + DRIVER),
     "C06": ("fault_enumeration", "runtime monitoring: offline trace checker over recorded AEAD (key, nonce, ad, plaintext) and RNG events across fault histories", "6/C06",
             "across enumerated failure causes/positions with retries, conversions and rekeys, no (key, nonce) pair encrypted two different inputs and every ephemeral was drawn inside its write", DRIVER),
     "C07": ("fault_enumeration", "runtime monitoring: differential twin-session oracle + before/after observation diff across injected failing calls", "6/C07",
@@ -78,6 +78,7 @@ def main():
             "enable": "the driver crate depends on snow with features = [\"verif-hooks\", ...]; checks rebuild it from /repo's working tree",
             "baseline_off_cmd": "cd /repo && cargo test --workspace --no-fail-fast --offline",
             "source_commits": ["42e6d89"],
+            "fix_commits": ["a2a61f4", "ea01672", "fae645a", "16ed79d", "fde3ce7", "93a1dd8"],
             "add_only": True,
         },
         "engines": [
@@ -86,7 +87,7 @@ def main():
             {"name": "vmon", "path": "/verif/vmon", "serves_properties": IDS, "kind_free_text": "orchestrator, shadow, generators, trace/history checkers, verdicts, evidence"},
         ],
         "checks": checks,
-        "notes": "Runtime monitoring only. Verdicts are three-valued (exit 0 held / 1 violation / 2 inconclusive). Known findings: /verif/known_findings.json.",
+        "notes": "Runtime monitoring only: every verdict comes from an oracle observing executions of the real crate built from /repo's working tree. Verdicts are three-valued (exit 0 held / 1 violation / 2 inconclusive). Known findings: /verif/known_findings.json (one open: F6). Sensitivity: 100 seeded changes in /verif/seeded (kill matrix in seeded/README.md, DESIGN.md section 13).",
         "not_applicable": [{"property_id": i, "reason": "check not built yet (work in progress, see DESIGN.md section 11)"} for i in IDS if i not in CHECKS],
     }
     with open(os.path.join(V, "MANIFEST.json"), "w") as f:
